@@ -65,5 +65,46 @@ def Iwp.transitionDense (q d : Nat) (h s2 : α) (lam2 : Vec d α) : PCond ((q+1)
     tl := Vec.ofFn fun x => getV pp.2 (co x)
     tob := Vec.ofFn fun x => getV pp.1 (co x) }
 
+/-! ### `cholesky_hilbert` (W. Kahan's recurrence), with the square roots factored out
+
+`cholesky_util.cholesky_hilbert(n)` returns `L[j,i] = U[i,j] · sqrt(2i+1) · (1/f_j)` (`i ≤ j`) where `U` and `f` are
+computed by rational recurrences.  The model keeps the rational part `M[j,i] = U[i,j]/f_j` and the squared column
+scales `2i+1` separately (square roots never enter the model): `L = M · diag(sqrt(2i+1))`, `L Lᵀ = M diag(2i+1) Mᵀ`. -/
+
+/-- `f[0] = 1`, `f[idx] = (((f[idx-1] / idx) * (2 idx)) / idx) * (2 idx + 1)` (shift `K = 0`) -/
+def Iwp.kahanF : Nat → α
+  | 0 => 1
+  | i+1 => (((Iwp.kahanF i / ((i+1 : Nat) : α)) * ((2*(i+1) : Nat) : α)) / ((i+1 : Nat) : α)) * ((2*(i+1)+1 : Nat) : α)
+
+/-- column `j` of `U`, downward recurrence from the diagonal: entry at distance `k` above the diagonal.
+`g[i] = (g[i+1] / (j - i)) * (i + 1 + j + 1)` with `i = j-1-k`. -/
+def Iwp.kahanU (j : Nat) : Nat → α
+  | 0 => 1
+  | k+1 => (Iwp.kahanU j k / ((k+1 : Nat) : α)) * (((j-1-k) + 1 + j + 1 : Nat) : α)
+
+/-- rational part of `cholesky_hilbert(n)`: `L[j,i] = hilbCholRat[j,i] · sqrt(2i+1)` -/
+def Iwp.hilbCholRat (n : Nat) : Mat n n α :=
+  Mat.ofFn fun j i => if i.val ≤ j.val then Iwp.kahanU j.val (j.val - i.val) * (1 / Iwp.kahanF j.val) else 0
+
+/-- squared column scales `dr² = odds = (1, 3, …, 2n-1)` -/
+def Iwp.hilbCholColSq (n : Nat) : Vec n α := Vec.ofFn fun i => ((2 * i.val + 1 : Nat) : α)
+
+/-- `L Lᵀ` for `L = cholesky_hilbert(n)` -/
+def Iwp.hilbCholGram (n : Nat) : Mat n n α :=
+  ((Iwp.hilbCholRat n).colScale (Iwp.hilbCholColSq n)).mul (Iwp.hilbCholRat n).tr
+
+/-- squared entries `L[j,i]²` -/
+def Iwp.hilbCholSq (n : Nat) : Mat n n α :=
+  Mat.ofFn fun j i => (Iwp.hilbCholRat n).get j i * (Iwp.hilbCholRat n).get j i * (Iwp.hilbCholColSq n).get i
+
+/-- the Hilbert matrix `1/(i+j+1)` -/
+def Iwp.hilbert (n : Nat) : Mat n n α := Mat.ofFn fun i j => 1 / (((i.val + j.val + 1 : Nat) : α))
+
+/-- the closed form of the squared entries: `L[i,j]² = (2j+1) (i!)⁴ / ((i-j)! (i+j+1)!)²`, `j ≤ i` -/
+def Iwp.hilbCholSqClosed (n : Nat) : Mat n n α :=
+  Mat.ofFn fun i j => if j.val ≤ i.val then
+    (((2 * j.val + 1) * (factN i.val)^4 : Nat) : α) / ((((factN (i.val - j.val)) * factN (i.val + j.val + 1))^2 : Nat) : α)
+  else 0
+
 end
 end Pdq
